@@ -2,6 +2,8 @@ package vsched
 
 import (
 	"fmt"
+	"os"
+	"strconv"
 	"time"
 )
 
@@ -32,19 +34,20 @@ type Explorer struct {
 	StopAtFirst bool
 
 	// statistics
-	Executions     int
-	Complete       int
-	CutRuns        int
-	Deadlocks      int
-	MaxPoints      int
-	Conflicting    int // complete executions in which >=2 threads touched a common object
-	Violations     int
-	Exhaustive     bool
-	Diverged       string
-	visited        map[vkey]vcost
-	stopped        bool
-	SampleTraces   [][]int
-	firstViolation bool
+	Executions         int
+	Complete           int
+	CutRuns            int
+	Deadlocks          int
+	MaxPoints          int
+	Conflicting        int // complete executions in which >=2 threads touched a common object
+	Violations         int
+	Exhaustive         bool
+	Diverged           string
+	visited            map[vkey]vcost
+	VisitedFull        bool // the visited-state table reached its memory bound (pruning degraded from then on)
+	stopped            bool
+	SampleTraces       [][]int
+	firstViolation     bool
 	divergenceReported bool
 }
 
@@ -75,9 +78,26 @@ func (e *Explorer) visitedCut(s *sched, curEnabled bool) bool {
 			return false
 		}
 	}
+	if len(e.visited) >= maxVisited {
+		// memory bound: stop recording new states (existing entries keep pruning). This only
+		// loses pruning, never soundness; VisitedFull is reported so a capped run says why.
+		if _, ok := e.visited[k]; !ok {
+			e.VisitedFull = true
+			return false
+		}
+	}
 	e.visited[k] = c
 	return false
 }
+
+// maxVisited bounds the visited-state table of one explorer (~60 bytes per entry; the checks run up
+// to 16 explorer processes side by side). VERIF_MAX_VISITED overrides.
+var maxVisited = func() int {
+	if v, err := strconv.Atoi(os.Getenv("VERIF_MAX_VISITED")); err == nil && v > 0 {
+		return v
+	}
+	return 12_000_000
+}()
 
 // Run performs the search. It returns false if a replay divergence (infrastructure error)
 // occurred.
